@@ -47,13 +47,16 @@ def units(tier, seed):
                 for indent in indents:
                     us.append({'name': f'{fmt} {n}x{m} symbolic labels of lengths {lens} indent {indent}',
                                'fn': 'unit_sym',
-                               'args': {'fmt': fmt, 'n': n, 'm': m, 'lens': list(lens), 'indent': indent}})
+                               'args': {'fmt': fmt, 'n': n, 'm': m, 'lens': list(lens), 'indent': indent,
+                                        'deadline': 240 if tier == 'quick' else 1500},
+                               'split': 5 if n * m >= 6 else 0})
     shapes = [(1, 1), (2, 1), (1, 2), (2, 2), (3, 2), (2, 3)] if tier == 'quick' else \
-        [(1, 1), (2, 1), (1, 2), (2, 2), (3, 2), (2, 3), (3, 3), (4, 2), (2, 4), (4, 3)]
+        [(1, 1), (2, 1), (1, 2), (2, 2), (3, 2), (2, 3), (3, 3), (4, 2), (2, 4)]
     for n, m in shapes:
         for menu in range(len(MENUS)):
             us.append({'name': f'per table {n}x{m} label menu {menu}', 'fn': 'unit_pertable',
-                       'args': {'n': n, 'm': m, 'menu': menu}, 'split': 4 if n * m >= 8 else 0})
+                       'args': {'n': n, 'm': m, 'menu': menu, 'deadline': 240 if tier == 'quick' else 1500},
+                       'split': 4 if n * m >= 8 else 0})
     us.sort(key=lambda u: -(u['args']['n'] * u['args']['m']))
     for part in range(6):
         us.insert(0, {'name': f'self-test of the string model {part + 1}/6', 'fn': 'unit_selftest',
